@@ -100,11 +100,15 @@ def check_history(col, hist, queries, forms):
     col.count("len")
     if r != ("ok", len(mins)):
         col.violation("len", fn + ".__len__", list(hist), list(r), len(mins))
-    r = call(lambda: sorted(s))
-    col.count("iter")
     exp = sorted(".".join(reversed(m)) for m in mins)
-    if r[0] != "ok" or r[1] != exp:
-        col.violation("iter", fn + ".__iter__", list(hist), repr(r), exp)
+    # iterated twice (the second time after a redundant add): iteration describes the set, it does not consume it
+    for again in (0, 1):
+        r = call(lambda: sorted(s))
+        col.count("iter")
+        if r[0] != "ok" or r[1] != exp:
+            col.violation("iter", fn + ".__iter__", list(hist) + (["<iterated before, then re-added %s>" % hist[-1]] if again else []), repr(r), exp)
+        if hist:
+            call(s.add, hist[-1])
     for i, q in enumerate(queries):
         exp = ref_match(added, q)
         for form in forms:
@@ -155,7 +159,7 @@ def main():
             full = _ast.literal_eval(inp["then"].split("adds of ", 1)[1]) if "then" in inp else inp["adds"]
             check_history(col, tuple(full), H4, FORMS)
         else:
-            check_history(col, tuple(inp), H4, FORMS)
+            check_history(col, tuple(h for h in inp if not h.startswith("<")), H4, FORMS)
         col.rule = "replay"
         col.dump(a.out)
         return
